@@ -61,6 +61,7 @@ class Contract:
         self.closures = {}
         self.btree_loops = []
         self.chars_iters = []
+        self.box_dyn = []
         self.let_types = {}
         self.rename_types = {}
         self.loop_iter = {}
@@ -133,6 +134,9 @@ def parse_contracts(path):
             last = None
         elif word == 'chars_iters':
             cur.chars_iters = rest.split()
+            last = None
+        elif word == 'box_dyn':
+            cur.box_dyn = rest.split()
             last = None
         elif word == 'btree_loops':
             cur.btree_loops = rest.split()
@@ -973,6 +977,32 @@ class Assembler:
             head_clean, nsub = re.subn(r'\b%s\b(?!\s*<)' % re.escape(lt), lt + "<'_>", head_clean)
             if nsub and 'Self' not in head_clean.split('->')[-1]:
                 self.rewrites.append({'rule': 'R11', 'where': '%s:%d' % (c.src, fn_line), 'text': "%s -> %s<'_>" % (lt, lt)})
+        for (an, atext, arel) in getattr(self, 'aliases', []):
+            # R19: spelled-out alias -> alias name (whitespace-insensitive textual match of the alias's right-hand side)
+            pat = r'\s*'.join(re.escape(ch) for ch in atext)
+            head_clean, nsub = re.subn(pat, an, head_clean)
+            if nsub:
+                self.rewrites.append({'rule': 'R19', 'where': '%s:%d' % (c.src, fn_line), 'text': '%s -> %s (alias declared in %s)' % (atext, an, arel)})
+        # R18: a parameter `impl IntoIterator<Item = T>` is instantiated at `Vec<T>` (Verus cannot establish the iterator-protocol
+        # invariants of a `for` loop over an abstract iterator type; over `Vec<T>` it can).  The loop body is verified for every
+        # finite sequence of items; what is dropped is an argument iterator with side effects of its own or without end.
+        while True:
+            m = re.search(r'impl\s+IntoIterator\s*<\s*Item\s*=\s*', head_clean)
+            if not m:
+                break
+            depth, k = 1, m.end()
+            while k < len(head_clean) and depth:
+                ch = head_clean[k]
+                if ch == '<':
+                    depth += 1
+                elif ch == '>' and head_clean[k - 1] != '-':
+                    depth -= 1
+                k += 1
+            if depth:
+                raise ExtractError('fn %s: unbalanced impl IntoIterator<..>' % key)
+            item_t = head_clean[m.end():k - 1].strip()
+            head_clean = head_clean[:m.start()] + 'Vec<%s>' % item_t + head_clean[k:]
+            self.rewrites.append({'rule': 'R18', 'where': '%s:%d' % (c.src, fn_line), 'text': 'impl IntoIterator<Item = %s> -> Vec<%s>' % (item_t, item_t)})
         self_mut = False
         if re.search(r'\(\s*mut\s+self\b', head_clean):
             # R16: Verus does not support a `mut self` receiver: bind it to a mutable local instead
@@ -1085,6 +1115,12 @@ class Assembler:
                 b, n17 = re.subn(r'\b%s\s*\.all\(' % re.escape(civ), 'chars_all(&mut %s, ' % civ, b)
                 if n17:
                     log.append({'rule': 'R17b', 'where': '%s:%d' % (c.src, base_line), 'text': '%s.all( -> chars_all(&mut %s, ' % (civ, civ)})
+            for bv in c.box_dyn:
+                # R20: `Box::new(<f>)` with `<f>: impl UserFunction + ..` coerced to the trait object alias `BoxedFunction`: the unsizing
+                # coercion is made an explicit call of the boundary fn `box_user_function` (BoxedFunction is a stand-in type here)
+                b, n20 = re.subn(r'\bBox\s*::\s*new\s*\(\s*%s\s*\)' % re.escape(bv), 'box_user_function(%s)' % bv, b)
+                if n20:
+                    log.append({'rule': 'R20', 'where': '%s:%d' % (c.src, base_line), 'text': 'Box::new(%s) -> box_user_function(%s)' % (bv, bv)})
             if c.btree_loops:
                 b = rewrite_for_btree(b, c.btree_loops, c.src, base_line, log)
             if c.rename_calls:
@@ -1099,7 +1135,8 @@ class Assembler:
             toks_b = rsscan.tokenize(b)
             out_b = []
             for t in toks_b:
-                out_b.append('self_r16' if (t[0] == 'ident' and t[1] == 'self') else t[1])
+                # `self_param` (contract text only) names the receiver as passed in
+                out_b.append('self_r16' if (t[0] == 'ident' and t[1] == 'self') else ('self' if (t[0] == 'ident' and t[1] == 'self_param') else t[1]))
             b = ''.join(out_b)
             b = '{\n    let mut self_r16 = self;' + b[1:]
         for h in helpers:
@@ -1263,6 +1300,17 @@ class Assembler:
                         raise
             elif d == 'import':
                 self.emit_fn(rest, True)
+            elif d == 'alias':
+                # //@alias <file> <Name>: the crate declares `type <Name> = <T>;` in <file>; a signature that spells out <T> is
+                # rewritten to say <Name> (R19; an identity under the real alias -- needed because <Name> is a stand-in type here)
+                rel, name = rest.split()
+                src = load_src(rel)[0]
+                mm = re.search(r'\btype\s+%s\s*=\s*([^;]+);' % re.escape(name), src)
+                if not mm:
+                    raise ExtractError('lost anchor: type alias %s not found in %s' % (name, rel))
+                if not hasattr(self, 'aliases'):
+                    self.aliases = []
+                self.aliases.append((name, re.sub(r'\s+', '', mm.group(1)), rel))
             else:
                 raise ExtractError('unknown directive //@%s' % d)
 
